@@ -25,6 +25,7 @@ fn main() {
     let argv: Vec<String> = std::env::args().collect();
     if argv.len() < 2 { eprintln!("usage: mdw-harness <property> [--seed S] [--n N] [--out DIR] [--tier quick|thorough]"); std::process::exit(2); }
     let a = common::parse_args(&argv[2..]);
+    common::set_part_dir(&a.out);
     match argv[1].as_str() {
         "c16" => c16::run(&a),
         "c13" => c13::run(&a),
